@@ -743,6 +743,9 @@ def mk_phi(alts):
     return ("phi", flat)
 
 
+_ACTIVE = {"facts": None, "stack": ()}
+
+
 def subst(t, args):
     """substitute ('param', i, name) by args[i], re-normalising on the way up"""
     if not isinstance(t, tuple) or not t:
@@ -760,6 +763,21 @@ def subst(t, args):
         return mk_field(subst(t[1], args), t[2])
     if h == "some" and len(t) == 2:
         return mk_some(subst(t[1], args))
+    if h == "call" and len(t) == 3 and "ops::function::Fn" in t[1] and parse_callee(t[1])[2] in ("call", "call_mut", "call_once"):
+        # a call through a closure-typed PARAMETER (`f(x)` inside a generic helper): once the caller's closure / fn item
+        # has been substituted for the parameter the call can be seen through
+        a2 = tuple(subst(x, args) if isinstance(x, tuple) else x for x in t[2])
+        f = _ACTIVE.get("facts")
+        if f is not None and len(a2) == 2 and isinstance(a2[0], tuple) and a2[0] and isinstance(a2[1], tuple) and a2[1] and a2[1][0] == "tuple":
+            if a2[0][0] == "closure" and a2[0][1] in f.bodies:
+                summ = closure_summary(f, a2[0][1], 1, (), _ACTIVE.get("stack", ()))
+                if summ is not None:
+                    return subst(summ, [("tuple", tuple(a2[0][2]))] + list(a2[1][1]))
+            if a2[0][0] == "fn" and a2[0][1] in f.bodies and a2[0][1] not in _ACTIVE.get("stack", ()):
+                summ = summary(f, a2[0][1], 1, (), _ACTIVE.get("stack", ()))
+                if summ is not None:
+                    return subst(summ, list(a2[1][1]))
+        return (h, t[1], a2)
     if h == "phi":
         return mk_phi([subst(x, args) for x in t[1]])
     if h == "agg":
@@ -768,37 +786,39 @@ def subst(t, args):
 
 
 _SUMMARY = {}
+# helpers larger than this are not inlined (a rule that needs to see through one big dispatcher raises them locally)
+LIMITS = {"blocks": 80, "size": 500}
 
 
-def summary(facts, callee, depth, stack=()):
+def summary(facts, callee, depth, stack=(), stops=()):
     """return-value term of a workspace fn in terms of its parameters (cached), or None"""
-    key = (id(facts), callee, depth)
+    key = (id(facts), callee, depth, LIMITS["blocks"], LIMITS["size"], tuple(stops))
     if key in _SUMMARY:
         return _SUMMARY[key]
     cb = facts.bodies.get(callee)
     r = None
-    if cb is not None and cb.kind in ("fn", "method") and len(cb.blocks) <= 80:
+    if cb is not None and cb.kind in ("fn", "method") and len(cb.blocks) <= LIMITS["blocks"]:
         _SUMMARY[key] = None  # recursion guard
-        sub = Terms(facts, cb, depth, _stack=stack + (callee,))
+        sub = Terms(facts, cb, depth, _stack=stack + (callee,), stops=stops)
         r = sub.local(0)
-        if _size(r) > 500:
+        if _size(r) > LIMITS["size"]:
             r = None
     _SUMMARY[key] = r
     return r
 
 
-def closure_summary(facts, callee, depth, stack=()):
+def closure_summary(facts, callee, depth, stack=(), stops=()):
     """return-value term of a closure body: parameter 0 is the environment (captures as tuple fields), 1.. the arguments"""
-    key = (id(facts), callee, depth, "closure")
+    key = (id(facts), callee, depth, "closure", LIMITS["blocks"], LIMITS["size"], tuple(stops))
     if key in _SUMMARY:
         return _SUMMARY[key]
     cb = facts.bodies.get(callee)
     r = None
-    if cb is not None and len(cb.blocks) <= 80:
+    if cb is not None and len(cb.blocks) <= LIMITS["blocks"]:
         _SUMMARY[key] = None
-        sub = Terms(facts, cb, depth, _stack=stack + (callee,))
+        sub = Terms(facts, cb, depth, _stack=stack + (callee,), stops=stops)
         r = sub.local(0)
-        if _size(r) > 500:
+        if _size(r) > LIMITS["size"]:
             r = None
     _SUMMARY[key] = r
     return r
@@ -813,8 +833,11 @@ class Terms:
     Workspace helper calls are inlined up to `inline_depth`.
     """
 
-    def __init__(self, facts, body, inline_depth=2, param_terms=None, _stack=()):
+    def __init__(self, facts, body, inline_depth=2, param_terms=None, _stack=(), stops=()):
         self.facts = facts
+        _ACTIVE["facts"] = facts
+        _ACTIVE["stack"] = tuple(stops)
+        self._stops = tuple(stops)
         self.body = body
         self.inline_depth = inline_depth
         self.param_terms = param_terms
@@ -983,16 +1006,16 @@ class Terms:
             return args[0]
         # a direct call of a closure value (`let f = |x| …; f(a)`): the closure body is part of this function's source
         cb = self.facts.bodies.get(callee)
-        if cb is not None and cb.kind == "closure" and len(args) == 2 and callee not in self._stack \
+        if cb is not None and cb.kind == "closure" and len(args) == 2 and callee not in self._stack and callee not in self._stops \
                 and isinstance(args[0], tuple) and args[0] and args[0][0] == "closure" and args[0][1] == callee \
                 and isinstance(args[1], tuple) and args[1] and args[1][0] == "tuple":
-            summ = closure_summary(self.facts, callee, self.inline_depth, self._stack + (self.body.id,))
+            summ = closure_summary(self.facts, callee, self.inline_depth, self._stack + (self.body.id,), self._stops)
             if summ is not None:
                 self.inlined.add(callee)
                 return subst(summ, [("tuple", tuple(args[0][2]))] + list(args[1][1]))
         # inline workspace helpers through their (cached) summaries
-        if self.inline_depth > 0 and callee in self.facts.bodies and callee not in self._stack:
-            summ = summary(self.facts, callee, self.inline_depth - 1, self._stack + (self.body.id,))
+        if self.inline_depth > 0 and callee in self.facts.bodies and callee not in self._stack and callee not in self._stops:
+            summ = summary(self.facts, callee, self.inline_depth - 1, self._stack + (self.body.id,), self._stops)
             if summ is not None:
                 self.inlined.add(callee)
                 return subst(summ, args)
